@@ -113,22 +113,50 @@ Proof. exact inner_fix_proportional_lemma. Qed.
 Print Assumptions C15_lle_fix_equal_activity_partial.
 
 (* ---- flows proportional to the feed ---- *)
-(* full statement: scaling both liquid rows by k > 0 gives the same trace and stored state and k times the flows *)
-Definition scale_strm (k : Q) (s : strm) : strm :=
-  mkstrm (map (Qmult k) (m_l s)) (map (Qmult k) (m_L s)) (m_o s) (tcT s) (tcP s).
-Definition lle_homogeneous_statement : Prop :=
-  forall E o st s a k, 0 < k ->
-    let '(st1, s1, t1) := lle_call E o st s a in
-    let '(st2, s2, t2) := lle_call E o st (scale_strm k s) a in
-    st2 = st1 /\ t2 = t1 /\
-    (forall i, nthq (m_l s2) i == k * nthq (m_l s1) i) /\ (forall i, nthq (m_L s2) i == k * nthq (m_L s1) i).
-(* proved part: the normalised feed -- the only way the flows enter the cache decision, the cached split, the solver
-   and the labelling -- is the identical canonical vector for k*mol and mol; the result is that split times F_mol
-   (see [finish] / [write_back]).  Missing: the bookkeeping lemma that [scatter] and [liquid_data] commute with scaling. *)
-Theorem C15_lle_homogeneous_partial : forall k mol, ~ k == 0 -> ~ qsum mol == 0 ->
+(* scaling both liquid rows by k > 0: the same stored state, the same trace (cache decision, solver arguments, return
+   value or exception), every other phase, T and P untouched, and k times the flows in l and L *)
+Theorem C15_lle_homogeneous : forall E o st s a k st1 s1 t1, 0 < k ->
+  lle_call E o st s a = (st1, s1, t1) ->
+  exists s2, lle_call E o st (scale_strm k s) a = (st1, s2, t1) /\
+    length (m_l s2) = length (m_l s1) /\ length (m_L s2) = length (m_L s1) /\
+    (forall i, nthq (m_l s2) i == k * nthq (m_l s1) i) /\
+    (forall i, nthq (m_L s2) i == k * nthq (m_L s1) i) /\
+    m_o s2 = m_o s1 /\ tcT s2 = tcT s1 /\ tcP s2 = tcP s1.
+Proof. exact lle_homogeneous_pointwise. Qed.
+Print Assumptions C15_lle_homogeneous.
+
+(* the normalised feed is the identical canonical vector for k*mol and mol *)
+Theorem C15_lle_z_scale_invariant : forall k mol, ~ k == 0 -> ~ qsum mol == 0 ->
   vr (vdivs (map (Qmult k) mol) (rsum (map (Qmult k) mol))) = vr (vdivs mol (rsum mol)).
 Proof. exact z_scale_invariant_lemma. Qed.
-Print Assumptions C15_lle_homogeneous_partial.
+Print Assumptions C15_lle_z_scale_invariant.
+
+(* ---- the positive counterpart of the refuted statement ----
+   for the REPAIRED map (Model.inner_loop_repaired: log K goes to the first block, which the LLE doctest forbids to apply),
+   the full statement holds: an exact fixed point that satisfies the Rachford-Rice equation has equal activities in the
+   two liquids, and its K is gamma_x / gamma_y *)
+Theorem C15_lle_repaired_fix_equal_activity : forall fexp fln gamma v z n phi w x y,
+  (forall q, 0 < q -> fexp (fln q) == q) ->
+  (forall a b, a == b -> fexp a == fexp b) ->
+  (forall i, (i < n)%nat -> 0 < nthq (gamma x) i) ->
+  (forall i, (i < n)%nat -> 0 < nthq (gamma y) i) ->
+  length z = n -> length v = (n + n)%nat ->
+  inner_loop_repaired fexp fln gamma v z n phi = Ok w -> veq w v ->
+  rr_residual z (map fexp (firstn n v)) phi == 0 ->
+  loop_x fexp v z n phi = Ok x -> loop_y fexp gamma v z n phi = Ok y ->
+  (forall i, (i < n)%nat -> nthq x i * nthq (gamma x) i == nthq y i * nthq (gamma y) i) /\
+  (forall i, (i < n)%nat -> fexp (nthq v i) == nthq (gamma x) i / nthq (gamma y) i).
+Proof. exact repaired_fix_equal_activity_lemma. Qed.
+Print Assumptions C15_lle_repaired_fix_equal_activity.
+
+(* its hypotheses are met by a non-trivial fixed point (two different liquids) *)
+Example C15_repaired_fixed_point_reachable :
+  inner_loop_repaired fexpW flnW gammaW vR zR 2 (1 # 2) = Ok wR /\ veq wR vR /\
+  rr_residual zR (map fexpW (firstn 2 vR)) (1 # 2) == 0 /\
+  loop_x fexpW vR zR 2 (1 # 2) = Ok xR /\ loop_y fexpW gammaW vR zR 2 (1 # 2) = Ok yR /\
+  (forall i, (i < 2)%nat -> 0 < nthq (gammaW xR) i) /\ (forall i, (i < 2)%nat -> 0 < nthq (gammaW yR) i) /\
+  ~ nthq xR 0 == nthq yR 0.
+Proof. exact repaired_witness_facts. Qed.
 
 (* ---- SLE ---- *)
 (* a call moves only the named solute (and nothing at all when the solute is unknown) *)
